@@ -40,8 +40,24 @@ def _near_table_names():
 NEAR_TABLE = _near_table_names()
 
 
+def _library_only_names():
+    """Names the library's own MIME enum knows but the specification table does not (parser sentinels with negative ids,
+    D15): as custom names they must travel as custom names."""
+    out = [b'UNPARSEABLE_MIME_TYPE_DO_NOT_USE', b'UNKNOWN_YET_RESERVED_DO_NOT_USE']
+    try:
+        from rsocket.extensions.mimetypes import WellKnownMimeTypes
+        for m in WellKnownMimeTypes:
+            name = bytes(m.value.name)
+            if name.decode('latin-1') not in refcodec.WELL_KNOWN_MIME_BY_NAME and 1 <= len(name) <= 128:
+                out.append(name)
+    except Exception:
+        pass
+    return sorted(set(out))
+
+
 def custom_name(lo=1, hi=128):
     return st.one_of(
+        st.sampled_from(_library_only_names()),
         # names that are NOT in the well-known table but differ from a table name only by case / whitespace / one byte
         st.sampled_from(NEAR_TABLE),
         st.sampled_from([1, 2, 127, 128]).flatmap(lambda n: st.binary(min_size=n, max_size=n)),
